@@ -1,5 +1,12 @@
 package main
 
+import (
+	"fmt"
+	"strconv"
+	"sync"
+	"time"
+)
+
 var commonAssume = []string{
 	"go-libipni is compiled with go1.26.8 (needed for testing/synctest) and -tags verif; behaviour specific to go1.23.6 is not observed",
 	"one VERIF_SEED determines every choice; goroutines free-run between park points and are assumed confluent there (checked by `simcheck selftest determinism`)",
@@ -7,18 +14,94 @@ var commonAssume = []string{
 }
 
 var plans = map[string]plan{
+	"C01": {
+		Property: "C01", Level: "exploration",
+		Quick:    []phase{{Scen: "C01", Seeds: 6000, Batch: 250}},
+		Thorough: []phase{{Scen: "C01", Seeds: 300000, Batch: 1000}},
+		Rule:     "seeded: one publisher (chain 1..12 ads, 0..8 entry chunks per ad, small link trees), one subscriber with drawn AdsDepthLimit/EntriesDepthLimit/FirstSyncDepth/SegmentDepthLimit, 1..5 sync calls (SyncAdChain with queried/explicit head, stop CID on/off/equal-to-head/off-chain, resync, scoped depth and segment limits; SyncEntries; SyncOneEntry; SyncHAMTEntries) interleaved with chain extension, random pre-stored subsets and SetLatestSync; discovery vs plain HTTP, dead addresses first, TLS, handler paths, retryable client, chunked/delayed delivery. A run is non-trivial when at least one call reported >= 2 blocks; distinct = distinct (fault set, canonical log hash)",
+		Real:     []string{"dagsync.Subscriber", "ipnisync.Sync/Syncer", "ipnisync.Publisher (as http.Handler)", "go-ipld-prime traversal/selectors/dag-json", "net/http client transport", "libp2p-HTTP discovery client", "retryablehttp"},
+		Stubs:    []string{"TCP/TLS (net.Pipe, no handshake)", "HTTP server loop (http.ReadRequest + recorder)", "block stores (in-memory)", "wall clock (testing/synctest)", "libp2p stream transport (absent)"},
+		Assume:   commonAssume,
+	},
 	"C16": {
 		Property: "C16", Level: "exploration",
 		Quick:    []phase{{Scen: "C16", Enum: true, Seeds: 20000, Batch: 2000}},
 		Thorough: []phase{{Scen: "C16", Enum: true, Seeds: 2000000, Batch: 20000}},
-		Rule: "enumerated: every sequence of 1..4 (quick) / 1..5 (thorough) calls over {Close, Direct(cidA), Direct(cidB), Next, UncacheCid} assigned to two caller tasks, executed in that global order with blocked calls left pending; seeded: 2..5 tasks, 2..12 calls incl. Direct from a denied peer, scheduler-chosen interleaving at call granularity. A run is non-trivial when at least two calls were simultaneously enabled or pending; distinct = distinct (schedule hash, canonical log hash)",
-		Real:   []string{"announce.Receiver (no pubsub host)", "announce string LRU", "Go channel/select semantics (runtime)"},
-		Stubs:  []string{"pubsub topic (absent: receiver created without a libp2p host)", "wall clock (testing/synctest)"},
-		Assume: commonAssume,
+		Rule:     "enumerated: every sequence of 1..4 (quick) / 1..5 (thorough) calls over {Close, Direct(cidA), Direct(cidB), Next, UncacheCid} assigned to two caller tasks, executed in that global order with blocked calls left pending; seeded: 2..5 tasks, 2..12 calls incl. Direct from a denied peer, scheduler-chosen interleaving at call granularity. A run is non-trivial when at least two calls were simultaneously enabled or pending; distinct = distinct (schedule hash, canonical log hash)",
+		Real:     []string{"announce.Receiver (no pubsub host)", "announce string LRU", "Go channel/select semantics (runtime)"},
+		Stubs:    []string{"pubsub topic (absent: receiver created without a libp2p host)", "wall clock (testing/synctest)"},
+		Assume:   commonAssume,
 	},
 }
 
 func selftest(args []string) int {
-	fatal2("selftest not built yet")
-	return 2
+	if len(args) < 2 || args[0] != "determinism" {
+		fatal2("usage: simcheck selftest determinism <scenario> [seeds]")
+	}
+	scen := args[1]
+	n := 200
+	if len(args) > 2 {
+		n, _ = strconv.Atoi(args[2])
+	}
+	bin := buildWorker(false)
+	type key struct {
+		seed uint64
+		cs   int
+	}
+	ref := map[key]string{}
+	bad := 0
+	var mu sync.Mutex
+	var wg sync.WaitGroup
+	sem := make(chan struct{}, 8)
+	for _, gmp := range []string{"1", "4", "16", "1", "4", "16"} {
+		for chunk := 0; chunk < n; chunk += 50 {
+			wg.Add(1)
+			sem <- struct{}{}
+			go func(gmp string, from int) {
+				defer wg.Done()
+				defer func() { <-sem }()
+				cnt := 50
+				if from+cnt > n {
+					cnt = n - from
+				}
+				wo := runWorker(bin, Args{Scen: scen, Tier: "quick", From: uint64(7000 + from), Count: cnt, CaseFrom: from, CaseCount: max(0, min(cnt, casesOf(bin, scen)-from)), GMP: gmp}, 10*time.Minute)
+				mu.Lock()
+				defer mu.Unlock()
+				for _, r := range wo.results {
+					k := key{r.Seed, r.Case}
+					h := r.LogHash + fmt.Sprint(r.OK)
+					if prev, ok := ref[k]; ok && prev != h {
+						bad++
+						fmt.Printf("NONDETERMINISTIC: %s seed %d case %d: %s vs %s (GOMAXPROCS=%s)\n", scen, r.Seed, r.Case, prev, h, gmp)
+					} else {
+						ref[k] = h
+					}
+				}
+				if wo.died && wo.exit != 3 {
+					fmt.Printf("worker died: exit %d %s\n", wo.exit, lastLines(wo.stderr, 5))
+					bad++
+				}
+			}(gmp, chunk)
+		}
+	}
+	wg.Wait()
+	fmt.Printf("determinism %s: %d distinct runs, 6 executions each (GOMAXPROCS 1,4,16 twice), %d mismatches\n", scen, len(ref), bad)
+	if bad > 0 {
+		return 2
+	}
+	return 0
+}
+
+var casesCache = map[string]int{}
+var casesMu sync.Mutex
+
+func casesOf(bin, scen string) int {
+	casesMu.Lock()
+	defer casesMu.Unlock()
+	if v, ok := casesCache[scen]; ok {
+		return v
+	}
+	v := enumCases(bin, scen, "quick")
+	casesCache[scen] = v
+	return v
 }
